@@ -30,7 +30,7 @@ theorem restore_iff_completed (ops : List Op) :
     | true => have := (hw.reg_alive h).1; simp [hup] at this
   by_cases hc : s.state = some .completed
   · have hr : step s .restart
-        = some { s with up := true, reg := true, phase := .loop, state := some .running, forGood := false } := by
+        = some { s with up := true, reg := true, phase := .loop, state := some .running } := by
       simp [step, hup, hdir, hc]
     exact ⟨_, hr, by simp [S.served, hc], by simp [hdir], by simp [hc]⟩
   · have hr : step s .restart
@@ -51,18 +51,16 @@ theorem completed_only_by_drainEnd (s c : S) (o : Op) (h : step s o = some c)
 applied: applied = produced; the log ends with the last produced change."**
 First part: in every reachable state whose persisted state is `completed` nothing accepted is
 waiting (`produced = applied`), the handle has left the manager (nothing can be accepted any more)
-and the matcher task is gone.  Second part, the moment of writing: the step that ends the drain
-first applies every waiting candidate (each accepted key now carries the table's value, the change
-log is the log after the last produced change, with consecutive ids) and then writes `completed` —
-unless the matcher had left its loop through the cancellation branch (`forGood`, fix 49b7ba8): then
-the state stays `cancelled`. -/
+and the matcher task is gone.  Second part, the moment of writing: the step that writes `completed`
+(also over a `cancelled` written earlier on the same path) first applies every waiting candidate
+(each accepted key now carries the table's value), its change log is the log after the last
+produced change, with consecutive ids. -/
 theorem completed_implies_drained (ops : List Op) :
     let s := run init ops
     (s.state = some .completed →
         s.pending = [] ∧ s.produced = s.applied ∧ s.reg = false ∧ s.phase = .gone) ∧
     (∀ c, step s .drainEnd = some c →
-        (c.state = if s.forGood then some .cancelled else some .completed) ∧
-        c.pending = [] ∧ c.applied = s.produced ∧
+        c.state = some .completed ∧ c.pending = [] ∧ c.applied = s.produced ∧
         (∀ k ∈ s.pending, c.rows k = s.db k) ∧
         c.log = (applyAll s s.pending).log ∧ Consecutive c.log) := by
   intro s
@@ -74,14 +72,11 @@ theorem completed_implies_drained (ops : List Op) :
     simp only [step] at hc
     split at hc <;> simp at hc
     subst hc
-    obtain ⟨_, _, _, _, _, _, _, _, _, _, _, _, _, _, e_pend, e_app, e_log, e_rows, _⟩ := flush_fields s
-    refine ⟨?_, e_pend, by simp [e_app, S.produced], ?_, e_log, hw'.ids⟩
-    · cases hfg : s.forGood with
-      | false => simp
-      | true => simpa using (hw.for_good hfg).2.1
-    · intro k hk
-      show s.flush.rows k = s.db k
-      rw [e_rows, applyAll_rows]; simp [hk]
+    obtain ⟨_, _, _, _, _, _, _, _, _, _, _, _, _, _, e_pend, e_app, e_log, e_rows⟩ := flush_fields s
+    refine ⟨rfl, e_pend, by simp [e_app, S.produced], ?_, e_log, hw'.ids⟩
+    intro k hk
+    show s.flush.rows k = s.db k
+    rw [e_rows, applyAll_rows]; simp [hk]
 
 /-- **"After a graceful stop + restart: same subscription id, rows = query result at close, next
 change id = max + 1."**  From every reachable state in which the subscription is served, the
@@ -93,7 +88,7 @@ drain ends, exit) followed by a start
   waiting, with exactly the rows and the change log of `c` (the log ends with the last change
   produced before the stop) and an unchanged table;
 * if no transaction was missed before and no match step is outstanding at the stop
-  (`missed = 0`, `held = []`: see `restored_stale_late_match_counterexample` for what happens otherwise),
+  (`missed = 0`, `held = []`: see `restored_stale_*_counterexample` for what happens otherwise),
   the restored rows equal the table, and the next transaction that changes a key yields exactly one
   new change whose id is the previous maximum + 1. -/
 theorem restart_continues_ids (ops : List Op) :
@@ -116,10 +111,10 @@ theorem restart_continues_ids (ops : List Op) :
   have e1 : gracefulRestart = [.trip, .initialDone, .ack] ++ ([.unreg false, .dropClone, .initialDone, .ack, .drainEnd] ++ [.stop, .restart]) := rfl
   have e2 : gracefulRestart.take 8 = [.trip, .initialDone, .ack] ++ [.unreg false, .dropClone, .initialDone, .ack, .drainEnd] := rfl
   have e3 : gracefulRestart.take 3 = [.trip, .initialDone, .ack] := rfl
-  obtain ⟨d_ph, d_up, d_reg, _, d_dir, d_sid, d_db, d_missed, d_held, d_fg⟩ := to_drain hw hs
-  generalize hd : run s [.trip, .initialDone, .ack] = d at d_ph d_up d_reg d_dir d_sid d_db d_missed d_held d_fg
+  obtain ⟨d_ph, d_up, d_reg, _, d_dir, d_sid, d_db, d_missed, d_held⟩ := to_drain hw hs
+  generalize hd : run s [.trip, .initialDone, .ack] = d at d_ph d_up d_reg d_dir d_sid d_db d_missed d_held
   obtain ⟨c_st, _, c_up, _, c_pend, c_dir, c_sid, c_db, c_missed, c_held, c_app, _, _⟩ :=
-    drain_to_completed d_ph d_up d_reg d_fg
+    drain_to_completed d_ph d_up d_reg
   have hc : c = run d [.unreg false, .dropClone, .initialDone, .ack, .drainEnd] := by
     show run s (gracefulRestart.take 8) = _
     rw [e2, run_append, hd]
@@ -157,14 +152,14 @@ not polled in between), followed by a start -/
 def gracefulRestartOvertaken : List Op :=
   [.trip, .unreg false, .dropClone, .initialDone, .ack, .drainEnd, .stop, .restart]
 
-/-- **Since fix c37e976 (was: counterexample on 49b7ba8, replay `fill 6000 | w 1=1 | sub slow nowait
-| graceful | restart live | subinfo` → 404): a graceful stop restores the subscription also when
-the cancellation of `drop_handles()` overtakes the tripwire** — at any point of the subscription's
-life (creation, initial query, running, draining).  `drop_handles()` cancels with the same token as
-an unsubscription and `cmd_loop`'s biased `select!` looks at the cancellation first; while the node
-is shutting down that is not an unsubscription: the drain runs, `completed` is written, and the
-next start serves the same id with everything accepted applied (and rows equal to the table if
-nothing was missed). -/
+/-- **A graceful stop restores the subscription also when the cancellation of `drop_handles()`
+overtakes the tripwire** — at any point of the subscription's life (creation, initial query,
+running, draining).  `drop_handles()` cancels with the same token as an unsubscription and
+`cmd_loop`'s biased `select!` looks at the cancellation first: the matcher writes `cancelled`, the
+drain runs, `cancelled` is overwritten by `completed`, and the next start serves the same id with
+everything accepted applied (and rows equal to the table if nothing was missed).  (Replay `fill 6000
+| w 1=1 | sub slow nowait | graceful | restart live | subinfo`; this is the schedule that a repair
+of the unsubscription finding must not break: an attempted one, 49b7ba8, did.) -/
 theorem graceful_overtaken_restores (ops : List Op) :
     let s := run init ops
     s.served = true →
@@ -269,7 +264,7 @@ theorem no_stale_serving (ops : List Op) :
     simp [S.served, hreg] at hsrv
 
 /-- **Partial: "a restored subscription's rows equal its query on the database."**
-Full statement (FALSE for the code as it is, see the counterexample below):
+Full statement (FALSE for the code as it is, see the two counterexamples below):
 `∀ ops, (run init ops).up = false → (stepD (run init ops) .restart).served → rows = db`.
 Proved under the hypothesis that no committed transaction was missed by the subscription
 (`missed = 0`: every transaction that committed while the directory existed had its match step run
@@ -314,41 +309,27 @@ theorem restored_rows_eq_query_partial (ops : List Op) :
     rw [hr] at hsrv
     simp [S.served, hreg] at hsrv
 
-/-- **Since fix 49b7ba8 (was: counterexample `unsubscribed-sub-restored-stale`): an unsubscribed
-subscription never comes back.**  From every reachable state in which the subscription is served
-and the node is not shutting down: after the tail of `process_sub_channel` (all listeners gone for
-`MAX_UNSUB_TIME`: `subs.remove` + `handle.cleanup()`) and the matcher winding down, the persisted
-state is `cancelled` — no longer overwritten by `completed` — and whatever happens afterwards
-(transactions the subscription no longer sees, stops of any kind, restarts, new subscriptions), the
-id is never served again: the first start removes the directory. -/
-theorem unsubscribed_never_served_again (ops l : List Op) :
-    let s := run init ops
-    s.served = true → s.tripped = false →
-    let u := run s [.unreg false, .initialDone, .ack, .drainEnd]
-    u.state = some .cancelled ∧ u.dir = true ∧ u.sid = s.sid ∧
-    (run u [.stop, .restart]).dir = false ∧
-    ¬ ((run u l).served = true ∧ (run u l).sid = s.sid) := by
-  intro s hs ht u
-  have hw : WF s := reach_wf ops
-  obtain ⟨u_st, u_dir, u_sid, u_up, u_dead⟩ := unsub_dead hw hs ht
-  have hwu : WF u := run_wf _ hw
-  refine ⟨u_st, u_dir, u_sid, ?_, ?_⟩
-  · have h1 : u.state = some .cancelled := u_st
-    have h2 : u.dir = true := u_dir
-    have h3 : u.up = true := u_up
-    simp [run, stepD, step, h1, h2, h3]
-  · intro ⟨h1, h2⟩
-    have hwl : WF (run u l) := run_wf _ hwu
-    obtain ⟨_, hd⟩ := run_dead l u_dead
-    simp only [S.served, Bool.and_eq_true] at h1
-    have hal := hwl.reg_alive h1.2
-    have hdir := (hwl.phase_up hal.2.1).2
-    rcases hd with h | h | h
-    · exact absurd (hdir.symm.trans h) (by decide)
-    · exact h h2
-    · exact absurd (h1.2.symm.trans h.2.2) (by decide)
-
 /-! ### the code as it is: `completed` although work is lost -/
+
+/-- an unsubscribed subscription (all listeners gone for `MAX_UNSUB_TIME`: `subs.remove` +
+`handle.cleanup()`), a later transaction, a stop of any kind, a start -/
+def unsubThenWrite : List Op :=
+  [.mkdir, .create, .initialDone, .write [(1, some 1)], .process,
+   .unreg false, .ack, .drainEnd, .write [(2, some 2)], .stop, .restart]
+
+/-- **Counterexample (replayed on the real code: known finding `unsubscribed-sub-restored-stale`).**
+Cancellation writes `cancelled`, the same code path then writes `completed`; the directory is kept;
+the transaction that commits afterwards finds no handle (`missed`); at the next start — after a
+graceful or an abrupt stop alike — the subscription is restored and served although its rows differ
+from the table.  (`restored_rows_eq_query_partial` is the positive statement: with `missed = 0`, in
+particular with no transaction between the unsubscription and the stop, the restored rows are the
+table.) -/
+theorem restored_stale_unsub_counterexample :
+    let s := run init unsubThenWrite
+    (run init (unsubThenWrite.take 7)).state = some .cancelled ∧
+    (run init (unsubThenWrite.take 8)).state = some .completed ∧
+    s.served = true ∧ s.missed = 1 ∧ s.rows 2 = none ∧ s.db 2 = some 2 ∧ s.rows 2 ≠ s.db 2 := by
+  decide
 
 /-- a transaction whose match step runs after `drop_handles()` (its `broadcast_changes` task was
 waiting for a read connection), inside the binary's own stop sequence -/
@@ -367,12 +348,14 @@ theorem restored_stale_late_match_counterexample :
 
 /-! ### examples: the hypotheses are satisfiable, the mechanisms are exercised -/
 
-/-- since fix 49b7ba8 `cancelled` is no longer overwritten by `completed` on the same path -/
+/-- `cancelled` is overwritten by `completed` on the same path; unsubscribed and nothing written
+afterwards: restored with the rows it had, which are the table -/
 example :
     (run init [.mkdir, .create, .initialDone, .unreg false, .ack]).state = some .cancelled ∧
-    (run init [.mkdir, .create, .initialDone, .unreg false, .ack, .drainEnd]).state = some .cancelled ∧
-    (run init [.mkdir, .create, .initialDone, .unreg false, .ack, .drainEnd,
-               .write [(2, some 2)], .stop, .restart]).dir = false := by
+    (run init [.mkdir, .create, .initialDone, .unreg false, .ack, .drainEnd]).state = some .completed ∧
+    (let r := run init [.mkdir, .create, .initialDone, .write [(1, some 1)], .unreg false, .ack, .drainEnd,
+                        .stop, .restart]
+     r.served = true ∧ r.missed = 0 ∧ r.rows 1 = some 1 ∧ r.db 1 = some 1) := by
   decide
 
 /-- a stop while `cancelled` (another clone of the handle keeps the drain open) is discarded -/
@@ -399,7 +382,7 @@ example :
     r.rows 1 = some 2 ∧ r.rows 2 = some 5 ∧ r.log = [2, 1] := by
   decide
 
-/-- `gracefulRestartOvertaken` from the middle of the initial query (the replay that failed on 49b7ba8) -/
+/-- `gracefulRestartOvertaken` from the middle of the initial query -/
 example :
     let s := run init [.write [(1, some 1)], .mkdir, .create, .write [(2, some 5)]]
     let r := run s gracefulRestartOvertaken
